@@ -16,9 +16,10 @@ rc, out = sh('git diff --stat', cwd=wt); meta['diffstat'] = out.strip()
 rc, out = sh('/venv/bin/python -m pytest -q -p no:cacheprovider 2>&1 | tail -1', cwd=wt, env=env); meta['suite_patched'] = out.strip()
 rc1, out1 = sh('/venv/bin/python demo.py', cwd=wt, env=env); meta['demo_patched_rc'] = rc1; meta['demo_patched_tail'] = out1[-400:]
 # unchanged tree: run demo against /repo
-sh('git stash', cwd=wt)
+# (no `git stash`: the stash is shared between all worktrees of a repository and collides with parallel work)
+sh('git diff > /tmp/seed/.%s.eval.diff && git apply -R /tmp/seed/.%s.eval.diff' % (sid, sid), cwd=wt)
 rc0, out0 = sh('/venv/bin/python demo.py', cwd=wt, env=env); meta['demo_unchanged_rc'] = rc0
-sh('git stash pop', cwd=wt)
+sh('git apply /tmp/seed/.%s.eval.diff && rm -f /tmp/seed/.%s.eval.diff' % (sid, sid), cwd=wt)
 ok = ' passed' in meta['suite_patched'] and 'failed' not in meta['suite_patched'] and rc1 != 0 and rc0 == 0
 meta['confirmed'] = ok
 print('confirmed:', ok, meta['suite_patched'], 'demo patched rc', rc1, 'demo unchanged rc', rc0)
